@@ -307,6 +307,10 @@ public:
     std::string lastValue;
     std::vector<DepRec> deps;
     bool interrupted = false;
+    // The rule completed (and was persisted) in a build that ended before the
+    // leaf it had discovered was brought up to date: see known finding
+    // "interrupted-before-discovered-dependency".
+    char unsettledDiscovered = 0;
   };
   std::map<char, Sh> mem, disk;
   long tick = 0;
@@ -328,6 +332,7 @@ public:
   std::map<char, std::pair<bool, std::string>> refCache;
   std::map<char, std::vector<DepRec>> issuedDeps;   // per task this build, in issue order (+discovered)
   std::map<char, std::string> completedValue;
+  std::map<char, char> discoveredBy;                // rule -> leaf it reported as discovered in this build
   std::set<std::pair<char, char>> waitEdges;        // (waiter, awaited) requests issued this build
   std::map<char, std::vector<DepRec>> preBuildDeps; // recorded deps before this build (for C07 W)
   bool cycleReported = false;
@@ -364,9 +369,13 @@ public:
   void traceExt() { if (traceSink) traceSink("E " + ext.dump()); }
   bool quiet = false;  // suppress verdicts while replaying a prefix that was already judged
   bool dead = false;   // the engine stalled: the session cannot continue
-  void violate(const std::string& oracle, const std::string& what) {
+  void violate(const std::string& oracle0, const std::string& what) {
     violationThisBuild = true;
     if (quiet) return;
+    std::string oracle = oracle0;
+    if (oracle == "stale-result" || oracle == "stale-input")
+      for (auto& kv : mem)
+        if (kv.second.unsettledDiscovered) { oracle += "-after-build-interrupted-before-discovered-dependency-was-built"; break; }
     res.violate(cfg.prop + "." + oracle, what + " | world: " + w.spec + " | history: " + historyStr(done),
                 replayPrefix + historyStr(done));
   }
@@ -563,6 +572,7 @@ public:
         if (cfg.capi) { llb_data_t kd{dn.size(), (const uint8_t*)dn.data()}; llb_buildengine_task_discovered_dependency(t.cti, &kd); }
         else t.ti.discoveredDependency(dn);
         issuedDeps[t.key].push_back({keyName(d.discLeaf), false, false});
+        discoveredBy[t.key] = d.discLeaf;
       }
     }
     std::string v = uv::isLeafKey(t.key) ? uv::leafValue(t.key, ext.s[t.key]) : uv::computeValue(d, t.key, vals, reads);
@@ -840,6 +850,7 @@ inline void Session::registerTask(char k, const uv::RuleDef& d, TaskRec* rec) {
   if (obs) obs->executed += k;
   running[k] = rec;
   issuedDeps[k].clear();
+  mem[k].unsettledDiscovered = 0;
   if (cfg.checkC02) {
     if (n > 1) violate("multi-exec", std::string("rule ") + k + " executed " + std::to_string(n) + " times in one build");
     auto& sh = mem[k];
@@ -952,7 +963,7 @@ inline BuildObs Session::build(const Event& ev) {
   cancelAt = ev.cancelAt;
   cancelIssued = false;
   created.clear(); validFalse.clear(); doneThisBuild.clear(); completedThisBuild.clear(); statusComplete.clear();
-  running.clear(); pending.clear(); refCache.clear(); issuedDeps.clear(); completedValue.clear(); waitEdges.clear();
+  running.clear(); pending.clear(); refCache.clear(); issuedDeps.clear(); completedValue.clear(); waitEdges.clear(); discoveredBy.clear();
   cycleReported = false; cycleReports = 0; violationThisBuild = false;
   preBuildDeps.clear();
   for (auto& kv : mem) preBuildDeps[kv.first] = kv.second.deps;
@@ -1012,9 +1023,15 @@ inline BuildObs Session::build(const Event& ev) {
   pending.clear();
 
   // interrupted executions
-  if (!o.success)
+  if (!o.success) {
     for (auto& kv : created)
       if (!statusComplete.count(kv.first)) mem[kv.first].interrupted = true;
+    for (auto& kv : discoveredBy)
+      if (statusComplete.count(kv.first) && !doneThisBuild.count(kv.second)) {
+        mem[kv.first].unsettledDiscovered = kv.second;
+        if (disk.count(kv.first)) disk[kv.first].unsettledDiscovered = kv.second;
+      }
+  }
 
   // -- C01
   if (o.success && cfg.checkC01) {
@@ -1103,6 +1120,8 @@ inline std::string Session::canonicalState() {
   // shadow facts that decide future verdicts
   std::string sh;
   for (auto& kv : mem) if (kv.second.interrupted) sh += kv.first;
+  sh += "/";
+  for (auto& kv : mem) if (kv.second.unsettledDiscovered) { sh += kv.first; sh += kv.second.unsettledDiscovered; }
   return out + "ext " + ext.dump() + " interrupted=" + sh + "\n";
 }
 
